@@ -17,8 +17,8 @@ class as a program of the kernel model (`OnlVerif/Kernel`): the generator `TCPPa
 
 ```python
 def run(self, env):                                                  def put(self, ack):
-    while env.now < self.flow.finish_time:                               assert ack.flow_id >= 10000
-        if self.flow.size and self.next_seq >= self.flow.size:           ackno = ack.ack
+    while env.now < self.flow.finish_time:                               assert ack.flow_id >= 10000; ackno = ack.ack
+        if self.flow.size and self.next_seq >= self.flow.size:           if ackno < self.last_ack: return
             return                                                       if ackno == self.last_ack:
         while self.next_seq >= self.send_buffer:                             self.dupack += 1
             packet_size = min(self.mss, self.flow.size - self.next_seq)  else:
@@ -334,7 +334,9 @@ def sndNewAck (cfg : Cfg) (now : τ) (a : AckIn τ) (cont : B τ) : B τ :=
 /-- `TCPPacketGenerator.put(ack)` at instant `now`, followed by `cont` -/
 def sndPut (cfg : Cfg) (now : τ) (a : AckIn τ) (cont : B τ) : B τ :=
   if a.fid < 10000 then .raise assertErr else                                   -- assert ack.flow_id >= 10000
-  loadNat cLack fun lack => loadNat cDup fun dup =>
+  loadNat cLack fun lack =>
+  if a.ackno < lack then cont else                                              -- if ackno < self.last_ack: return
+  loadNat cDup fun dup =>
   sndCountDup a.ackno lack dup fun dup' =>
   if dup' = 3 then
     ccCall CongestionControl.consecutive_dupacks_received <|                    -- consecutive_dupacks_received()
